@@ -287,7 +287,7 @@ def _xmodel(var):
     return (lambda g: 1000 + step * g) if var & 1 else (lambda g: 1000 - step * g)
 
 
-def _build(frames_per_rec, indirect, tif, table, maxpl, var=0):
+def _build(frames_per_rec, indirect, tif, table, maxpl, var=0, pad=0):
     chs = CHS[1:] if indirect else CHS
     xof = _xmodel(var)
     lrs = [L.file_head_tail(128)]
@@ -312,7 +312,7 @@ def _build(frames_per_rec, indirect, tif, table, maxpl, var=0):
         lrs.append(L.data_record(frames, L.i32(x0) if indirect else None))
     lrs.append(L.file_head_tail(129))
     kinds.append(129)
-    data, pos = L.physical(lrs, tif, maxpl)
+    data, pos = L.physical(lrs, tif, maxpl, pad)
     return data, pos, kinds, model
 
 
